@@ -41,6 +41,7 @@ def run(tier):
     # ---- discovery: any other variable template with unordered dynamic initialisation that library code refers to
     vts = scan.scan_variable_templates()
     extra_unordered = sorted(n for n, k in vts.items() if 'unordered' in k and n not in TABLES and n != 'operator')
+    extra_unordered += scan.scan_template_static_members()
     # ---- Conformance: probes with both compilers at -O0 and -O2
     src = C.gen_file('staticinit_probe.cpp', gen_staticinit.source(us))
     wsrc = C.gen_file('staticinit_witness.cpp', gen_staticinit.WITNESS)
@@ -66,6 +67,13 @@ def run(tier):
             evs += lines
             if r.returncode != 0:
                 evs.append({'e': 'Witness', 'compiler': c, 'opt': o[1:], 'outcome': f'quantity-level program terminated with status {r.returncode} before or in main'})
+    # the constitutive models before main() (g++ only: clang++ 14 cannot compile the model headers)
+    for o in ('-O0', '-O2'):
+        mexe = C.compile_cxx(f'premain_models_g++{o}', [os.path.join(C.HARNESS, 'premain_models.cpp')], flags=['-std=c++17', o, '-w'], compiler='g++', timeout=1200)
+        r = subprocess.run([mexe, 'g++', o[1:]], stdout=subprocess.PIPE, stderr=subprocess.PIPE, timeout=600)
+        evs += [json.loads(x) for x in r.stdout.decode(errors='replace').splitlines() if x.startswith('{')]
+        if r.returncode != 0:
+            evs.append({'e': 'Witness', 'compiler': 'g++', 'opt': o[1:], 'outcome': f'model-level program terminated with status {r.returncode} before or in main'})
     with cf.ThreadPoolExecutor(4) as ex:
         for (c, o), exe, wexe in ex.map(build, combos):
             r = subprocess.run([exe, c, o[1:]], stdout=subprocess.PIPE, stderr=subprocess.PIPE, timeout=600)
